@@ -237,6 +237,12 @@ def run(prog, check):
             check.ob('C04.R3', '%s::issuer-supply-equals-demand' % ukey, ok, m.where,
                      'market supply = issuer supply = total demand as polynomials' if ok else
                      'issuer / market supply is not tied to total demand', 'any holder of the asset')
+    # the collections the traces range over are the current ones: no accessor hands back a remembered list
+    from ._common import accessors_not_memoised
+    for f_, attr_, ok_, why_ in accessors_not_memoised(prog):
+        check.saw(f_)
+        check.ob('C04.R1', '%s::answers-for-current-objects%s' % (f_.key, '(%s)' % attr_ if attr_ else ''), ok_, f_.where, why_,
+                 'a zone queried during construction, then one more sector created in a member country')
     if n_agg < 3:
         raise AnalysisError('expected 3 market-like aggregation units, found %d' % n_agg)
     # ---- R4 ------------------------------------------------------------------------------------------
